@@ -55,6 +55,9 @@ EXTRA_SRC = {
     "x_lshort": "[[1]]", "x_setstr": "<<'a', 'b'>>", "x_mapint": "<<<1 => 2>>>",
     "x_objfn": "<*f = fn(self) 1, _str_ = fn(self) 'o'*>", "x_fn0": "fn() 1",
     "x_fn2": "fn(a, b) a", "x_fnerr": "fn(x) error 'boom'",
+    "x_s9": "'123456789'", "x_sinf": "'inf'", "x_dhuge": "1000000000000000000000.0 * 1000000000000000000000.0",
+    "x_objproto": "<*_proto_ = 1*>", "x_objnullproto": "<*_proto_ = NULL, a = 1*>", "x_mapmixed": "<<<1 => 2, 'a' => 3>>>",
+    "x_sbig": "'1' * 5000",
 }
 EXTRA_TAGS = sorted(EXTRA_SRC)
 
@@ -582,6 +585,27 @@ def run(run):
         for (f, i, j, k, c), job, r in zip(cases, form_jobs, fres):
             fm = forms[f - 1]
             events.append(event("form:" + fm["name"], fm["name"], job[2], r))
+            meta.append({"detail": r["detail"],
+                         "case": {"kind": "form", "what": job[1], "tags": list(job[2]), "form": fm["name"]}})
+        # the same forms on the wide pool (values the TLC pool has no representative of: a map
+        # with a non-string key, nested lists, FALSE, ...): one position at a time, the others
+        # filled from three plain values; judged on the outcome class only (no model prediction)
+        base = ["i2", "sa", "l2"]
+        wide_jobs = []
+        for fm in forms:
+            ar = fm["ar"]
+            for pos_ in range(ar):
+                for x in EXTRA_TAGS:
+                    if x == "x_sbig" and fm["name"].startswith(("for", "compr", "lcompr", "scompr", "mcompr", "spread", "in_", "destr")):
+                        continue     # iterating 5000 characters in nested loops is work, not a hang
+                    for b in (base if ar > 1 else base[:1]):
+                        tags = tuple(x if q == pos_ else b for q in range(ar))
+                        wide_jobs.append((fm, ("form", fm["text"], tags)))
+        if quick and len(wide_jobs) > 12000:
+            wide_jobs = rng.sample(wide_jobs, 12000)
+        wres = sw.execute([j for _, j in wide_jobs])
+        for (fm, job), r in zip(wide_jobs, wres):
+            events.append(event("form:" + fm["name"] + ":wide", "", job[2], r))
             meta.append({"detail": r["detail"],
                          "case": {"kind": "form", "what": job[1], "tags": list(job[2]), "form": fm["name"]}})
         nform = len(events)
